@@ -107,6 +107,7 @@ def run(tier, seed):
                        "an edge of the face, and terminates; with_faces panics for 1D and 2D cells and not for 3D; face data is Some whenever the unchecked accessors "
                        "can be reached (syntactic type-state obligations).",
     }
+    meta["assumptions"] = list(meta["assumptions"]) + kani.scan_assumptions()
     return results, meta
 
 
